@@ -234,6 +234,7 @@ type SpawnOpt struct {
 
 // JobOutcome is the result of one worker process.
 type JobOutcome struct {
+	Opt      SpawnOpt
 	TimedOut bool
 	Job      Job
 	Res      *WorkerResult
@@ -291,7 +292,7 @@ func RunJobs(ctx *Ctx, jobs []Job, opt SpawnOpt) []JobOutcome {
 			var so, se bytes.Buffer
 			cmd.Stdout, cmd.Stderr = &so, &se
 			err := cmd.Run()
-			o := JobOutcome{Job: j, Stderr: tail(se.String(), 6000)}
+			o := JobOutcome{Job: j, Opt: opt, Stderr: headTail(se.String(), 3000)}
 			if opt.Race {
 				if m, _ := filepath.Glob(raceLog + ".*"); len(m) > 0 {
 					b, _ := os.ReadFile(m[0])
@@ -315,6 +316,13 @@ func RunJobs(ctx *Ctx, jobs []Job, opt SpawnOpt) []JobOutcome {
 	}
 	wg.Wait()
 	return out
+}
+
+func headTail(s string, n int) string {
+	if len(s) > 2*n {
+		return s[:n] + "\n...\n" + s[len(s)-n:]
+	}
+	return s
 }
 
 func tail(s string, n int) string {
@@ -346,12 +354,61 @@ func Collect(ctx *Ctx, outs []JobOutcome, onDeath func(o JobOutcome) *Violation)
 					continue
 				}
 			}
-			Harnessf("%s\nstderr: %s", o.Err, o.Stderr)
+			if IsHarnessFailure(o.Stderr) {
+				Harnessf("%s\nstderr: %s", o.Err, o.Stderr)
+			}
+			// the worker process was killed by the code under test (fatal runtime error, unrecovered panic in another
+			// goroutine, os.Exit ...): that is an observation about the code, reported with the job as its replay case
+			vs = append(vs, CrashViolation(ctx.Prop, o))
+			continue
 		}
 		ctx.Cov.Merge(o.Res.Cov)
 		vs = append(vs, o.Res.Violations...)
 	}
 	return vs
+}
+
+// IsHarnessFailure: did the worker stop because of a problem of the machinery itself?
+func IsHarnessFailure(stderr string) bool { return strings.Contains(stderr, "HARNESS ERROR") }
+
+// CrashCase is the replay case of a worker crash: the job itself.
+type CrashCase struct {
+	Job  Job      `json:"job"`
+	Opt  SpawnOpt `json:"opt"`
+	Died string   `json:"died"`
+}
+
+func crashLine(stderr string) string {
+	for _, l := range strings.Split(stderr, "\n") {
+		if strings.HasPrefix(l, "fatal error:") || strings.HasPrefix(l, "panic:") || strings.Contains(l, "SIGSEGV") || strings.Contains(l, "SIGBUS") {
+			return strings.TrimSpace(l)
+		}
+	}
+	return "process died without a Go panic message"
+}
+
+func CrashViolation(prop string, o JobOutcome) *Violation {
+	line := crashLine(o.Stderr)
+	c := CrashCase{Job: o.Job, Opt: o.Opt, Died: line}
+	c.Job.Scratch = ""
+	sig := fmt.Sprintf("worker-crash job=%s shard=%d/%d args=%s: %s", o.Job.Name, o.Job.Shard, o.Job.NShards, string(o.Job.Args), line)
+	return NewViolation(prop, "worker-crash", sig, c, "the process running the code under test died: %s (the whole job is the replay case)", line)
+}
+
+// ReplayCrash re-runs the job of a worker-crash violation; it reproduces when the worker dies again.
+func ReplayCrash(ctx *Ctx, v *Violation) *Violation {
+	var c CrashCase
+	if err := json.Unmarshal(v.Case, &c); err != nil {
+		Harnessf("case: %v", err)
+	}
+	outs := RunJobs(ctx, []Job{c.Job}, c.Opt)
+	if outs[0].Res == nil && !outs[0].TimedOut && !IsHarnessFailure(outs[0].Stderr) {
+		return CrashViolation(v.Prop, outs[0])
+	}
+	if outs[0].Res != nil && len(outs[0].Res.Violations) > 0 {
+		return outs[0].Res.Violations[0]
+	}
+	return nil
 }
 
 // EmitWorkerResult prints the worker's result line.
@@ -439,6 +496,9 @@ type Evidence struct {
 // WriteEvidence writes /verif/evidence/<id>.json atomically.
 func WriteEvidence(ev *Evidence) {
 	dir := filepath.Join(VerifDir, "evidence")
+	if d := os.Getenv("VERIF_EVIDENCE_DIR"); d != "" {
+		dir = d // runs against scratch copies (self-tests on seeded changes) must not overwrite the real evidence
+	}
 	os.MkdirAll(dir, 0o755)
 	b, _ := json.MarshalIndent(ev, "", " ")
 	tmp := filepath.Join(dir, ev.PropertyID+".json.tmp")
